@@ -303,6 +303,28 @@ def run(ctx):
                 ops.append(("v", rng.randrange(256)))
         do_seq(tv, g, et0, oa0, ops)
 
+    # ---- the helper route: new_effect.modify_attribute(object_attributes=ATTACK/ARMOR, quantity=<packed>) ----------
+    htrig = scn.trigger_manager.add_trigger("c17-helpers")
+    for tv, g in [(2.4, 0), (2.5, 1), (3.9, 1)]:
+        k = 16 if g else 8
+        for oa in [int(x) for x in ATTRS]:
+            for c_, a_ in [(3, 5), (0, 7), (2 ** k - 1, 2 ** k - 1), (1, 0), (rng.randrange(2 ** k), rng.randrange(2 ** k))]:
+                set_tv(tv)
+                q = c_ * 2 ** k + a_
+                import warnings
+                with warnings.catch_warnings():
+                    warnings.simplefilter("ignore")
+                    st, e = common.outcome(lambda: htrig.new_effect.modify_attribute(object_attributes=oa, quantity=q))
+                    st2, e2 = common.outcome(lambda: htrig.new_effect.modify_attribute(object_attributes=oa, armour_attack_class=c_, armour_attack_quantity=a_))
+                got = (st == "ok" and (e.quantity, e.armour_attack_class, e.armour_attack_quantity))
+                got2 = (st2 == "ok" and (e2.quantity, e2.armour_attack_class, e2.armour_attack_quantity))
+                R.case(key=("helper", g, oa, c_, a_), nontrivial=c_ != 0 and a_ != 0, tags=("helper:modify_attribute",))
+                if got != (q, c_, a_) or got2 != (q, c_, a_):
+                    R.violation({"op": "helper", "layout": k, "form": "quantity" if got != (q, c_, a_) else "pair"},
+                                f"new_effect.modify_attribute(object_attributes={oa}, quantity={q}) gives (quantity, class, amount) = {got}, with the pair "
+                                f"({c_}, {a_}) supplied {got2}; both must be ({q}, {c_}, {a_})",
+                                {"op": "helper", "tv": tv, "object_attributes": oa, "class": c_, "amount": a_})
+
     # ---- correspondence: diff against the Lean model ---------------------------------------------------
     drv = ctx.driver()
     if drv is not None:
@@ -340,11 +362,21 @@ def run(ctx):
                     else:
                         tr.new_effect.modify_attribute(object_attributes=int(ObjectAttribute.HIT_POINTS), quantity=spec[2])
                 fn = os.path.join(tmp, f"{tag}.aoe2scenario")
-                s.write_to_file(fn)
-                s2 = AoE2DEScenario.from_file(fn)
                 fn2 = os.path.join(tmp, f"{tag}_b.aoe2scenario")
-                s2.write_to_file(fn2)
-                s3 = AoE2DEScenario.from_file(fn2)
+
+                def save_reload_twice():
+                    s.write_to_file(fn)
+                    a_ = AoE2DEScenario.from_file(fn)
+                    a_.write_to_file(fn2)
+                    return a_, AoE2DEScenario.from_file(fn2)
+                st_, r_ = common.outcome(save_reload_twice)
+            if st_ != "ok":
+                R.case(key=("file", k, tag, "raises"), nontrivial=True, tags=("file:raises",))
+                R.violation({"op": "save-reload", "layout": k, "form": "raises"},
+                            f"saving / re-loading in-range armour/attack pairs raised {r_} (trigger version {tv}; pairs "
+                            f"{[list(x[2:]) for x in specs if x[0] != 'plain'][-12:]})", {"op": "file", "tv": tv, "specs": [list(x) for x in specs][-16:]})
+                return
+            s2, s3 = r_
             effs = s2.trigger_manager.triggers[0].effects
             for spec, e in zip(specs, effs):
                 R.case(key=("file", k) + tuple(spec), nontrivial=True, tags=("file:" + spec[0],),
@@ -371,6 +403,10 @@ def run(ctx):
         for i in range(ctx.budget(40, 400)):
             kind = ("aa", "mod", "var", "plain")[i % 4]
             specs.append((kind, int(rng.choice(AA)), rng.randrange(32768), rng.randrange(65536)))  # class*65536+amount must fit the s32 field
+        # the corners of the 16+16-bit layout (the largest pair merges to the largest value of the s32 field)
+        for kind in ("aa", "mod", "var"):
+            for c_, a_ in ((32767, 65535), (32767, 0), (0, 65535), (0, 0)):
+                specs.append((kind, int(AA[0]), c_, a_))
         roundtrip_file(4.0, 16, specs, "s16")
     finally:
         shutil.rmtree(tmp, ignore_errors=True)
